@@ -19,7 +19,7 @@ package main
 //	                     its own partition
 //	C08.partr.starve     a CU with a free slot and own groups waits for more than #CU dispatching calls
 //	C08.partr.stuck      the environment answered every idle call with a completion and the kernel
-//	                     still did not finish within 2·|grid| calls
+//	                     still did not finish within 2·|grid|+1 calls
 
 import (
 	"fmt"
@@ -186,10 +186,10 @@ func c08rRun(r *Run, g, w c08Geo, caps []int, ops []c08rOp, gen func(res [][]*ke
 	if !p.HasNext() && disp != len(exp) {
 		r.Failf("C08.partr.cover", line, "HasNext is false after %d dispatches, the grid has %d work-groups", disp, len(exp))
 	}
-	if responsive && nexts >= 2*len(exp) && p.HasNext() {
+	if responsive && nexts >= 2*len(exp)+1 && p.HasNext() {
 		r.Checked("partr.live")
 		r.Failf("C08.partr.stuck", line, "every idle call was answered by a completion, yet after %d calls only %d of %d work-groups are out", nexts, disp, len(exp))
-	} else if responsive && nexts >= 2*len(exp) {
+	} else if responsive && nexts >= 2*len(exp)+1 {
 		r.Checked("partr.live")
 	}
 }
